@@ -240,6 +240,19 @@ class SymArr:
         return "SymArr#%d(n=%s)" % (self.ident, self.n)
 
 
+class MaskedSel:
+    """x[mask] for a symbolic-length array x and boolean array mask: the selected elements, kept in the index space
+    of x (its own length is data dependent and never made available).  Deliberately NOT an array for the rest of the
+    engine: only element-wise arithmetic, element-wise functions and `y[mask] = <this>` with the same mask accept it."""
+
+    def __init__(self, arr, mask):
+        self.arr = arr            # SymArr over the full index space
+        self.mask = mask          # SymArr of kind bool
+
+    def __repr__(self):
+        return "MaskedSel(%r)" % (self.arr,)
+
+
 class SymMat:
     """2-D ndarray of symbolic shape (n, m) with element function elem(i, j)"""
 
